@@ -1,0 +1,65 @@
+//! verif hook H4 (compiled only with `--cfg nervusdb_verif`): a scriptable stand-in for the wall clock
+//! that the node-creating executors read when they derive an external id.
+//!
+//! The three allocation sites keep their own text (`chrono::Utc::now().timestamp_nanos_opt()`);
+//! under the cfg they import this module under the name `chrono`, so that expression resolves to
+//! [`Utc::now`] below.  Without a script the real clock is read, i.e. behaviour is unchanged.
+use std::collections::VecDeque;
+use std::sync::Mutex;
+
+struct Script {
+    queue: VecDeque<Option<i64>>,
+    last: Option<Option<i64>>,
+    reads: u64,
+}
+
+static SCRIPT: Mutex<Script> = Mutex::new(Script {
+    queue: VecDeque::new(),
+    last: None,
+    reads: 0,
+});
+
+/// Replace the clock by a script: every read pops one reading (`None` = "out of chrono's range");
+/// once the script is used up the last reading repeats (a stalled clock).
+pub fn set_script(readings: &[Option<i64>]) {
+    let mut s = SCRIPT.lock().unwrap_or_else(|e| e.into_inner());
+    s.queue = readings.iter().copied().collect();
+    s.last = readings.last().copied();
+    if readings.is_empty() {
+        s.last = None;
+    }
+    s.reads = 0;
+}
+
+/// Back to the real clock.
+pub fn clear() {
+    set_script(&[]);
+}
+
+/// Number of clock reads since the last `set_script`.
+pub fn reads() -> u64 {
+    SCRIPT.lock().unwrap_or_else(|e| e.into_inner()).reads
+}
+
+pub struct Utc;
+pub struct Reading(Option<i64>);
+
+impl Utc {
+    pub fn now() -> Reading {
+        let mut s = SCRIPT.lock().unwrap_or_else(|e| e.into_inner());
+        s.reads += 1;
+        if let Some(r) = s.queue.pop_front() {
+            return Reading(r);
+        }
+        match s.last {
+            Some(r) => Reading(r),
+            None => Reading(::chrono::Utc::now().timestamp_nanos_opt()),
+        }
+    }
+}
+
+impl Reading {
+    pub fn timestamp_nanos_opt(&self) -> Option<i64> {
+        self.0
+    }
+}
